@@ -12,6 +12,14 @@ def main() -> int:
     ap.add_argument("--replay", default=None)
     a = ap.parse_args()
     seed = int(os.environ.get("VERIF_SEED", "0") or 0)
+    try:
+        # a generated run that feeds itself must end in MemoryError (exit 2), not take the machine down
+        import resource
+
+        lim = int(os.environ.get("VERIF_MEM_GB", "24")) * 2 ** 30
+        resource.setrlimit(resource.RLIMIT_AS, (lim, resource.getrlimit(resource.RLIMIT_AS)[1]))
+    except Exception:
+        pass
     from .runner import run_check
 
     if a.prop == "--selftest":
